@@ -144,6 +144,10 @@ def one_case(ns, fam, rng, entry, tgt_kind, buffered):
             arg.append([1, 2, 3])
             arg.append({"l": [[0]], "d": {"x": [True]}})
             arg.insert(1, [2, {"m": [1]}, [3]])
+        if rng.random() < 0.35:
+            # tuples (stored as lists) holding mutable containers, at every other nesting level
+            from proto import _tuplify
+            arg = _tuplify(arg, flip=False)
         snapshot = copy.deepcopy(arg)
         try:
             holder = apply_entry(world, root, tgt, root_is_dict if entry == "ctor" else is_dict_tgt, entry, arg, 0)
